@@ -41,6 +41,9 @@ def items(tier, seed):
     for cls in ["ReplayBuffer", "LAP", "PrioritizedReplayBuffer"]:
         for cap, mode in itertools.product([2, 3] if tier == "quick" else caps, ["default", "custom"]):
             out.append(dict(name=f"{cls}-{cap}-kwreversed-{mode}", cls=cls, cap=cap, shape=[2], mode=mode, tasks=0, seed=seed, kw="reversed"))
+    # later additions whose fields have another, broadcast-compatible shape than the first one ((1,) reward then float, (1, 2) then (2,))
+    for cls in ["ReplayBuffer", "LAP", "PrioritizedReplayBuffer", "MT-ReplayBuffer"]:
+        out.append(dict(name=f"{cls}-mixed-shapes", kind="mixshape", cls=cls, seed=seed, caps=[2, 3] if tier == "quick" else [1, 2, 3, 4]))
     tasks = [1, 2] if tier == "quick" else [1, 2, 3]
     for inner in ["ReplayBuffer", "LAP"]:
         for cap, nt in itertools.product(caps if tier == "quick" else [1, 2, 3], tasks):
@@ -381,9 +384,73 @@ def make_bundle(cfg, col):
     return bd
 
 
+def mixshape_item(item, col):
+    """The first addition fixes the storage shape; later additions may hand the same quantity in any shape that assigns into
+    one slot (a float for a (1,) reward, a (2,) observation for a (1, 2) one).  Every stored transition must stay intact."""
+    from vlib import poison
+
+    rb = poison.install()
+    mt = item["cls"].startswith("MT-")
+    cname = item["cls"][3:] if mt else item["cls"]
+    entry = (f"MultiTaskReplayBuffer({cname})" if mt else cname) + ".add_sample"
+    for cap, n, first_wide in itertools.product(item["caps"], range(2, 7), (True, False)):
+        buf = getattr(rb, cname)(cap)
+        if mt:
+            buf = rb.MultiTaskReplayBuffer(buf, 2)
+            buf.select_task(1)
+        want = []
+        for i in range(n):
+            base = 10.0 * i + item["seed"] % 7
+            wide = (i == 0) == first_wide  # either the first addition or all the later ones use the wider shape
+            obs, nobs, rew = np.array([base + 1.0, base + 1.5]), np.array([base + 4.0, base + 4.5]), base + 3.25
+            if wide:
+                smp = dict(observation=obs[None, :], action=np.array([[base + 2.5]]), reward=np.array([rew]), next_observation=nobs[None, :], termination=bool(i % 2))
+            else:
+                smp = dict(observation=obs, action=np.array([base + 2.5]), reward=rew, next_observation=nobs, termination=bool(i % 2))
+            if not first_wide and i == 0:
+                pass
+            try:
+                buf.add_sample(**smp)
+            except Exception as e:  # noqa: BLE001 - a shape that does not assign into the slot may be rejected loudly
+                col.outcome("mixed_shape_additions_rejected_loudly")
+                want = None
+                break
+            want.append([base + 1.0, base + 1.5, base + 2.5, rew, base + 4.0, base + 4.5, float(i % 2)])
+        col.tick(1, (entry, cap, n, first_wide))
+        if want is None:
+            continue
+        inner = buf.buffers[1] if mt else buf
+        stored = set()
+        for sl in range(inner.current_len):
+            row = np.concatenate([np.asarray(inner.buffer[k][sl], dtype=np.float64).reshape(-1) for k in ("observation", "action", "reward", "next_observation", "termination")])
+            stored.add(tuple(row.tolist()))
+        expect = {tuple(w) for w in want[-cap:]}
+        col.outcome("mixed_shape_histories")
+        if len(inner) != min(n, cap) or stored != expect:
+            col.violation(SIG.format(entry, "slot-content-not-a-recent-transition"), dict(capacity=cap, additions=n, first_addition_is_the_wide_one=first_wide,
+                                                                                           stored=sorted(stored), expected=sorted(expect)))
+    col.sample(dict(kind="mixed field shapes", cls=item["cls"], capacities=item["caps"]))
+
+
 def work(item, col):
+    if item.get("kind") == "mixshape":
+        return mixshape_item(item, col)
     cfg = item
     cap = cfg["cap"]
+    from vlib import poison
+
+    rbm = poison.install()  # uninitialised memory has the same content in every process
+    # process history is part of the item: buffers of the other flavours (discrete actions, custom dtypes, a prioritized one)
+    # are built and used first, so state shared between instances reaches the buffer under test in every process
+    for decoy in (rbm.ReplayBuffer(2, discrete_actions=True), rbm.LAP(2, discrete_actions=True),
+                  rbm.ReplayBuffer(2, keys=["a", "b"], dtypes=[np.float32, np.int16])):
+        try:
+            if "a" in decoy.buffer:
+                decoy.add_sample(a=1.5, b=2)
+            else:
+                decoy.add_sample(observation=np.zeros(1), action=1, reward=0.5, next_observation=np.zeros(1), termination=False)
+        except Exception:  # noqa: BLE001 - the decoys are not under test
+            pass
     try:
         make_bundle(cfg, e1.NullCol())
     except Exception as e:  # noqa: BLE001
